@@ -172,6 +172,6 @@ func TestC01_Regress(t *testing.T) { runRegress(t, "C01") }
 func TestC01_Diff(t *testing.T) {
 	st := stat("C01")
 	st.SetRule("files of 1-3 scripts drawn from the control-flow grammar (if/elif/else, while, condition-less while, do-while, break, continue, switch, end/return, labels, gotos incl. cross-script and hand-written goto_if_set / goto_if_unset commands; in one file in six the statements sit in statement poryswitch cases; in one file in five a third of the condition leaves and switch operands are AutoVar commands), depth<=4 (thorough 6), compiled with optimize off and on and executed from every script entry under 8 (thorough 24) hashed worlds against the reference interpreter; non-trivial = an entry whose script has a loop, a switch or an if nested >= 2 deep AND whose worlds produced >= 2 different outcomes; distinct by source text")
-	st.Assume("flag/var/trainer tests are side-effect free; world state is a function of the number of commands executed", "call and hand-written goto_if_* are opaque commands", "60-command horizon per run")
+	st.Assume("flag/var/trainer tests are side-effect free; world state is a function of the number of commands executed", "call is an opaque command; of the hand-written jump macros goto, goto_if_set and goto_if_unset are modelled as jumps", "60-command horizon per run")
 	runRapid(t, "C01", "TestC01_Diff", genC01, checkC01, c01Src)
 }
